@@ -146,6 +146,7 @@ def run(repo, rep, tier):
     # totals are conserved across siblings only if a node leaves the caller's weight array alone (a sibling filled afterwards would
     # see zeroed weights while the parent counted them) and only if += really updates the child it is applied to
     rep.borrow(repo, "C03", {"R3.3": ("R5.5", "a node never writes into the weight/data arrays its siblings and parent also use", 400)})
+    rep.borrow(repo, "C06", {"R6.2": ("R5.13", "a + b, h * f and zero() share no child with their operands (a later fill of the result would add weight to an operand's bins but not to its entries)", 40)})
     rep.borrow(repo, "C07", {"R7.3": ("R5.7", "a += b shares no child with b afterwards (a later fill of b would add weight to a's bins but not to a's entries)", 19)})
     rep.borrow(repo, "C03", {"R3.12": ("R5.10", "a finite datum whose sparse index exceeds the int64 range lands in the saturated bin in fill.numpy as well (every row of positive weight is in exactly one bin)", 2)})
     rep.borrow(repo, "C03", {"R3.7": ("R5.11", "a Count handed a scalar weight and a known batch length grows by weight x rows, which is what its parent collection adds to its own entries", 8)})
